@@ -371,3 +371,43 @@ Theorem C06_thread_select_from_source : forall (running : bool) sx st key, BayMu
 Proof. exact BayMuxGenProofs.thread_select_eq. Qed.
 Print Assumptions C06_thread_select_from_source.
 (* ==== end of block (mux callbacks from source) ==== *)
+
+(* ==== emulator main loop from source (unit emuloop) ==== *)
+(* The order BayDefs.mstep assumes is the order of the generated src/emu/emu.c:emu_step (Gen/EmuLoop_gen.v, unit
+   emuloop; prelude Emu/EmuLoopPre.v with the mechanical rendering MMech of the models' state): for a delivered event,
+   after recorder_advance, the handler of the event's model runs first (guards and structure updates of core_step, its
+   channel writes replayed on the bay: BayDefs.apply_writes of BayDefs.handler_writes) and ONLY THEN bay_propagate
+   (BayDefs.propagate), whose PRV lines go to the recorder at the new time: EmuLoopRelDefs.mech_iter is
+   rec_advance ; BayDefs.mstep ; rec_write.  Any refusal (time going back, model not enabled, handler, a refused
+   channel write, propagation) is an error of emu_step. *)
+From OV Require Emu.PlayerDefs Emu.PvDefs Emu.EmuLoopPre Emu.EmuLoopRelDefs Gen.EmuLoop_gen Proofs.EmuLoopProofs.
+
+Theorem C06_step_order_from_source : forall sx st e pst' who cst b,
+  PlayerDefs.pstep true (EmuLoopPre.en_offs sx) (EmuLoopPre.es_player st) = PlayerDefs.SEmit e pst' ->
+  EmuLoopPre.en_lpt sx (PlayerDefs.o_id e) = Some who ->
+  0 <= EmuLoopRelDefs.model_of sx e < 256 -> EmuLoopRelDefs.models_wf sx st ->
+  EmuLoopPre.es_models st = EmuLoopPre.MMech cst b ->
+  EmuLoop_gen.emu_step tt sx st =
+  match EmuLoopRelDefs.mech_iter (EmuLoopPre.en_sx sx) cst b (EmuLoopPre.es_rec st) (PlayerDefs.o_dclock e) who
+          (EmuLoopRelDefs.event_of sx (EmuLoopPre.es_enabled st) e) with
+  | Ok (cst', b', r') =>
+    Ok (0, EmuLoopPre.with_models (EmuLoopPre.with_rec (EmuLoopRelDefs.delivered st pst' e who) r') (EmuLoopPre.MMech cst' b'))
+  | Err _ => Err EmuLoopPre.E_FAIL
+  end.
+Proof. exact EmuLoopProofs.emu_step_mech_from_source. Qed.
+Print Assumptions C06_step_order_from_source.
+
+(* mech_iter is BayDefs.mstep between recorder_advance and the emit callbacks *)
+Theorem C06_mech_iter_is_mstep : forall sx st b r dclock who ev,
+  EmuLoopRelDefs.mech_iter sx st b r dclock who ev =
+  match PvDefs.rec_advance r dclock with
+  | Err e => Err e
+  | Ok r1 =>
+    match mstep sx st b who ev with
+    | Err e => Err e
+    | Ok (st1, b1, ls) => match PvDefs.foldr PvDefs.rec_write ls r1 with Err e => Err e | Ok r2 => Ok (st1, b1, r2) end
+    end
+  end.
+Proof. reflexivity. Qed.
+Print Assumptions C06_mech_iter_is_mstep.
+(* ==== end of block (unit emuloop) ==== *)
